@@ -83,7 +83,14 @@ def gen_name(rng):
     if n != n.rstrip():
         n += rng.choice(["x", '"', ";", "é"])
     if not valid_name(n):
-        n = "x" + n
+        # a NAME never contains the separator, NUL or line ends ("~/" of the token pool is a path spelling, not a name):
+        # drop those characters, then make what is left a legal name
+        n = "".join(c for c in n if c not in "/\x00\r\n")
+        if n != n.rstrip():
+            n += "x"
+        if not valid_name(n):
+            n = "x" + n
+    assert valid_name(n), n
     return n
 
 
